@@ -99,6 +99,12 @@ type c02req struct {
 // c02Batch: closed-loop client sending every variant of one command; the owning node answers with a
 // reply shape chosen per request.
 func c02Batch(name string, nodes []world.NodeSpec, password string, big bool) *world.Scenario {
+	return c02BatchG(name, nodes, password, big, 1)
+}
+
+// c02BatchG: the same with `group` requests per chunk (open loop inside a chunk: every request but the last of a chunk is
+// decoded with further client bytes buffered behind it; the next chunk follows when all replies so far have arrived).
+func c02BatchG(name string, nodes []world.NodeSpec, password string, big bool, group int) *world.Scenario {
 	sp := world.SpecTable[name]
 	sc := &world.Scenario{Nodes: nodes, Bound: 0, Password: password, Family: "commands", Horizon: 1 << 20, InputEnum: true}
 	var reqs []c02req
@@ -121,7 +127,12 @@ func c02Batch(name string, nodes []world.NodeSpec, password string, big bool) *w
 				reply := c02Shapes[int(fnv32(low))%len(c02Shapes)]
 				replyOf[string(low)] = reply
 				reqs = append(reqs, c02req{raw, reply})
-				cs.Chunks = append(cs.Chunks, world.Chunk{Data: raw, WaitReplies: i})
+				if i%group == 0 {
+					cs.Chunks = append(cs.Chunks, world.Chunk{Data: append([]byte{}, raw...), WaitReplies: i})
+				} else {
+					last := &cs.Chunks[len(cs.Chunks)-1]
+					last.Data = append(last.Data, raw...)
+				}
 				cs.Reqs = append(cs.Reqs, raw)
 				cs.Expect = append(cs.Expect, reply)
 				i++
@@ -165,7 +176,44 @@ func c02Batch(name string, nodes []world.NodeSpec, password string, big bool) *w
 	}
 	sc.Name = fmt.Sprintf("C02/cmd/%s/%dnodes/%s/big=%v", name, len(nodes), pw, big)
 	sc.Check = func(w *world.World) []world.Violation { return c02Oracle(w, reqs, name) }
+	if group > 1 {
+		sc.Name += fmt.Sprintf("/pipelined%d", group)
+		sc.Family = "commands-pipelined"
+		sc.Check = func(w *world.World) []world.Violation { return c02OracleUnordered(w, reqs, name) }
+	}
 	return sc
+}
+
+// c02OracleUnordered: as c02Oracle, but requests of one chunk may reach different nodes in any relative order: the
+// multiset of request bytes that reached the nodes must equal the multiset sent.
+func c02OracleUnordered(w *world.World, reqs []c02req, name string) []world.Violation {
+	var vs []world.Violation
+	svs := CheckStreams(w, StreamOpts{})
+	for i := range svs {
+		if svs[i].Sig == "corrupt" || svs[i].Sig == "forwarded-swap" {
+			svs[i].Sig = "reply-bytes-differ"
+		}
+	}
+	vs = append(vs, svs...)
+	var want, got []string
+	for _, r := range reqs {
+		want = append(want, string(lowerName(append([]byte{}, r.raw...))))
+	}
+	for _, rec := range w.DataCmds("") {
+		got = append(got, string(lowerName(append([]byte{}, rec.Raw...))))
+	}
+	sort.Strings(want)
+	sort.Strings(got)
+	if len(vs) == 0 && len(want) != len(got) {
+		vs = append(vs, world.Violation{Sig: "request-count-differs:" + name, Msg: fmt.Sprintf("%d requests sent, %d commands reached backends", len(want), len(got))})
+	}
+	for i := 0; i < len(want) && i < len(got); i++ {
+		if want[i] != got[i] {
+			vs = append(vs, world.Violation{Sig: "request-bytes-differ:" + name, Msg: fmt.Sprintf("pipelined requests: the nodes received %q, which the client did not send (it sent e.g. %q)", clipq([]byte(got[i])), clipq([]byte(want[i])))})
+			break
+		}
+	}
+	return append(vs, BackendsWellFormed(w)...)
 }
 
 func fnv32(b []byte) uint32 {
@@ -249,6 +297,7 @@ func c02Scenarios(tier string) []*world.Scenario {
 	thorough := tier == "thorough"
 	for _, n := range singleKeyCommands() {
 		out = append(out, c02Batch(n, T3m(), "", false))
+		out = append(out, c02BatchG(n, T3m(), "", false, 3))
 		if thorough || n == "get" || n == "set" || n == "eval" || n == "hmset" || n == "zrange" {
 			out = append(out, c02Batch(n, T3(), "secret", thorough))
 			co := c02Batch(n, T3(), "secret", false)
@@ -335,6 +384,21 @@ func c02Scenarios(tier string) []*world.Scenario {
 	}
 	for _, sz := range [][3]int{{1, 30, 30}, {70, 3, 20}, {3, 3, 90}} {
 		out = append(out, SlowMultiFlush("C02", sz, slowB))
+	}
+	// production-size buffers: replies of 64 KiB and more parked for a slow reader while request objects are recycled
+	for _, sz := range [][]int{{100, 70000, 70000}, {70000, 66000, 100}, {140000, 10, 65536}} {
+		sc := BigSlowRecycle("C02", sz, 60000, 2)
+		inner := sc.Check
+		sc.Check = func(w *world.World) []world.Violation {
+			vs := inner(w)
+			for i := range vs {
+				if vs[i].Sig == "corrupt" || vs[i].Sig == "forwarded-swap" {
+					vs[i].Sig = "reply-bytes-differ"
+				}
+			}
+			return vs
+		}
+		out = append(out, sc)
 	}
 	// a connection that died in the middle of a message must leave nothing behind that alters another connection's bytes:
 	// (i) a client aborts inside a request, then another client's request arrives cut; (ii) a node dies inside a reply,
